@@ -82,9 +82,9 @@ func c11Round(rng *Rng, G, perG int, inject bool) (bad []c11Mismatch, calls int,
 		for k := 0; k < perG; k++ {
 			st := &c12Step{re: rng.Intn(len(specs)), text: Pick(rng, texts), startAt: -1, count: -1}
 			st.op = Pick(rng, []int{1, 1, 2, 3, 4, 6, 7, 8, 8, 8, 9, 10, 11})
-			if st.text == c12Catastrophic && specs[st.re].timeout != 0 {
+			if c12IsCatastrophic(st.text) && specs[st.re].timeout != 0 {
 				if nTimeoutJobs >= 2*G || st.op >= 8 {
-					st.text = texts[1+rng.Intn(len(texts)-1)]
+					st.text = c12Calm(rng, texts)
 				} else {
 					nTimeoutJobs++
 				}
@@ -106,7 +106,7 @@ func c11Round(rng *Rng, G, perG int, inject bool) (bad []c11Mismatch, calls int,
 			// a wall-clock timeout fire in the sequential run as well); a late timeout of the concurrent call is
 			// tolerated and counted, any other difference is a violation.
 			ref := specs[st.re].compile()
-			if specs[st.re].timeout != 0 && st.text != c12Catastrophic {
+			if specs[st.re].timeout != 0 && !c12IsCatastrophic(st.text) {
 				ref.MatchTimeout = regexp2.DefaultMatchTimeout
 			}
 			want := c12Exec(ref, st, repls, ngroups[st.re]).canon
